@@ -683,3 +683,43 @@ Print Assumptions lenient_query_panics.
 Print Assumptions strict_query_answers.
 Print Assumptions lenient_validate_panics.
 Print Assumptions strict_validate_answers.
+
+(** * the paginated Denoms query of x/pnft *)
+From PV Require Pnft.Query.
+Lemma denom_on_np k v : Pnft.Query.denom_on k v <> Panic.
+Proof. unfold Pnft.Query.denom_on. destruct v; discriminate. Qed.
+
+Theorem q_denoms_panic_iff : forall st req,
+  Pnft.Query.q_denoms st req = Panic <->
+  exists r k x, req = Some r /\ Pagination.Model.pr_reverse r = true /\ Pagination.Model.pr_offset r = 0%N /\
+                Pagination.Model.pr_key r = Some k /\ k <> [] /\
+                Pagination.Model.range (sub_store GenNft.nft_class_key st) k None = [x].
+Proof.
+  intros st req. unfold Pnft.Query.q_denoms.
+  rewrite (paginate_with_panic _ _ _ denom_on_np). apply paginate_panic_req.
+Qed.
+
+Theorem q_denoms_total_forward : forall st r,
+  Pagination.Model.pr_reverse r = false -> Pnft.Query.q_denoms st (Some r) <> Panic.
+Proof.
+  intros st r Hf H. apply q_denoms_panic_iff in H as [r' [k [x [Er [Hr _]]]]].
+  inversion Er; subst r'. rewrite Hf in Hr. discriminate Hr.
+Qed.
+Theorem q_denoms_total_nil : forall st, Pnft.Query.q_denoms st None <> Panic.
+Proof. intros st H. apply q_denoms_panic_iff in H as [r [k [x [Er _]]]]. discriminate Er. Qed.
+Theorem q_denoms_total_offset : forall st r,
+  Pagination.Model.key_is_nil (Pagination.Model.pr_key r) = true -> Pnft.Query.q_denoms st (Some r) <> Panic.
+Proof.
+  intros st r Hn H. apply q_denoms_panic_iff in H as [r' [k [x [Er [_ [_ [Hk [Hne _]]]]]]]].
+  inversion Er; subst r'. rewrite Hk in Hn. destruct k; [apply Hne; reflexivity | discriminate Hn].
+Qed.
+
+(** known finding K2: the SDK's query.Paginate panics on a reverse request whose key is the greatest stored key
+    (or lies above all but one); a witness for each of the three paginated handlers *)
+Definition k2_req : Pagination.Model.page_req := Pagination.Model.mk_page_req (Some [x01; "a"%byte]) 0 10 false true.
+Theorem q_topics_refuted :
+  exists st, q_topics (fun _ => Some [x01]) st [] (Some k2_req) = Panic.
+Proof.
+  exists (match create_topic (fun _ => Some [x01]) [] (b "a") [] (b "o") with Ok s => s | _ => [] end).
+  vm_compute. reflexivity.
+Qed.
